@@ -339,8 +339,8 @@ func c19Run(c *core.Ctx, args []string) {
 
 func init() {
 	Registry["C19"] = &Driver{
-		Plan: func(tier string) []core.Job { return shardJobs("ping", 16, false, 1700) },
-		Run:  c19Run,
+		Plan:   func(tier string) []core.Job { return shardJobs("ping", 16, false, 1700) },
+		Run:    c19Run,
 		Replay: concReplayer(func() []*concScenario { return c19Scenarios(3) }),
 	}
 }
